@@ -153,9 +153,19 @@ def check_squash(repo: Repo, where: str, alphabet: list[str], max_len: int, trip
             return
         squashed += 1
         try:
-            pat = cm.call(res, "build_optimized_pattern")
+            # what parse() matches with: the (lazily compiled, cached) pattern property
+            compiled = cm.call(res, "pattern")
+            built = cm.call(res, "build_optimized_pattern")
         except ModelRaise as err:
             bad.append(("build_optimized_pattern raises", f"{desc}: build_optimized_pattern raises {err}"))
+            return
+        if not (isinstance(compiled, Obj) and isinstance(compiled.__dict__.get("pattern"), str)):
+            raise AnalysisError("anchor vanished: OptimizedChoice.pattern no longer returns a compiled pattern")
+        pat = compiled.pattern
+        if compiled.__dict__.get("flags", 0) not in (0,):
+            raise AnalysisError(f"OptimizedChoice compiles with global flags {compiled.flags:#x} (O13 decides those)")
+        if pat != built:
+            bad.append(("the pattern parse() uses is not the one generate() emits", f"{desc}: parse() matches with `{pat}`, generate() emits `{built}`"))
             return
         try:
             rx = re.compile(pat)
@@ -172,6 +182,23 @@ def check_squash(repo: Repo, where: str, alphabet: list[str], max_len: int, trip
 
     for (da, ea, fa), (db, eb, fb) in itertools.product(lv, repeat=2):
         one(f"{da} | {db}", cm.new("Choice", ea, eb), ordered([fa, fb]))
+    # a choice whose first alternative has been squashed before (and used: its compiled pattern is cached)
+    few = lv[:: max(1, len(lv) // (9 if triples else 4))]
+    for (da, ea, fa), (db, eb, fb), (dc, ec, fc) in itertools.product(few, few, few):
+        try:
+            inner = squash_choice(cm.new("Choice", ea, eb), {})
+        except ModelRaise:
+            continue
+        if not (isinstance(inner, Obj) and "OptimizedChoice" in inner.kinds):
+            continue
+        try:
+            cm.call(inner, "pattern")
+        except ModelRaise:
+            continue
+        before = list(inner.choices)
+        one(f"({da} | {db}) | {dc}", cm.new("Choice", inner, ec), ordered([fa, fb, fc]))
+        if list(inner.choices) != before:
+            bad.append(("squash_choice modifies a node of the tree it was given", f"({da} | {db}) | {dc}: the already squashed first alternative was extended in place"))
     if triples:
         small = [x for x in lv if len(x[0]) <= 5][:: max(1, len(lv) // 14)]
         for (da, ea, fa), (db, eb, fb), (dc, ec, fc) in itertools.product(small, repeat=3):
